@@ -353,6 +353,15 @@ pub fn run_migration_history(seed: u64, opts: &Opts, st: &mut Stats) -> History 
     let class = r.below(100);
     let ver: &str = if class < 55 { r.pick_s(VERSIONS_IN_WINDOW) } else if class < 70 { r.pick_s(VERSIONS_AFTER) } else if class < 85 { r.pick_s(VERSIONS_OLD) } else if class < 93 { r.pick_s(VERSIONS_BAD) } else { r.pick_s(VERSIONS_GRAY) };
     hist.step(version_op(ver), opts, st);
+    if r.chance(25) {
+        // a configuration request against the not-yet-migrated state (refused below the minimum version)
+        let ex = read_cfg(&hist.w).and_then(|c| c.executors.first().cloned()).unwrap_or_else(|| "exec1".into());
+        // (re-installs the current approver list, so an accepted request leaves the state as it was)
+        let cur = read_cfg(&hist.w).map(|c| c.approvers).unwrap_or_default();
+        if !cur.is_empty() {
+            hist.step(Op::Exec { sender: ex, funds: vec![], msg: json!({"modify_contract": {"approvers": cur}}) }, opts, st);
+        }
+    }
     let msg = if r.chance(55) { json!({}) } else { gen_migrate_msg(&mut r, &cfg.pool) };
     let plain = msg.as_object().map_or(false, |o| o.is_empty());
     let out = hist.step(Op::Migrate { msg }, opts, st);
